@@ -315,12 +315,22 @@ def pre_parse_single_arg_directive(args, flag, sep='--'):
     return args[:i_flag], args[i_flag + 1], args[i_flag + 2:]
 
 
-@_restore_list(sys.argv)
-@_restore_list(sys.path)
 def main(args=None):
     """
     Runs the command line interface
     """
+    # Look `sys.argv` and `sys.path` up when called (not when this module
+    # is imported) and put the very same objects back: `_main()` rebinds
+    # `sys.argv`, and the profiled program may rebind either
+    argv, path = sys.argv, sys.path
+    with _restore_list(argv), _restore_list(path):
+        try:
+            _main(args)
+        finally:
+            sys.argv, sys.path = argv, path
+
+
+def _main(args=None):
     def positive_float(value):
         val = float(value)
         if val <= 0:
